@@ -375,6 +375,18 @@ def r1b_path_sites(ctx, rid='C06.R1b'):
 
 # ----------------------------------------------------------------------------- R3 notify siblings
 
+def _notified(f, site, ns):
+    """the notify accompanies the event at `site`: it follows on every path to a return, or it precedes on every path
+    (dominates).  Both orders are equivalent here: these functions run with the stream lock held from before the
+    event until after the return, and a wake only schedules the woken task, which must take the same lock to look."""
+    if not ns:
+        return False
+    reach = f.reachable(f.succ[site], cut_blocks=ns)
+    if not any(x in reach for x in f.returns()):
+        return True
+    return f.dominated_by_blocks(site, ns)
+
+
 def r3_notify(ctx, rid='C06.R3'):
     r = ctx.rule(rid, 'PAIR', 'delivery and closure notify the parked tasks; sibling closers agree')
     F = ctx.facts
@@ -395,7 +407,9 @@ def r3_notify(ctx, rid='C06.R3'):
             n += 1
             reach = f.reachable(f.succ[pb], cut_blocks=notes)
             leak = [x for x in f.returns() if x in reach]
-            r.check(bool(notes) and not leak, 'deliver|%s' % name, f.loc(pb), 'push_back on pending_recv is followed by notify_recv on every path to a return',
+            if leak and _notified(f, pb, notes):
+                leak = []
+            r.check(bool(notes) and not leak, 'deliver|%s' % name, f.loc(pb), 'push_back on pending_recv is accompanied by notify_recv on every path (same critical section)',
                     witness=core.compress_path(f, f.path_between(pb, leak[0], cut_blocks=notes) or []) if leak else None)
     r.floor(n, 5, 'push_back sites on Stream.pending_recv in Recv')
     rpp = F.fn(P + 'recv::Recv::recv_push_promise')
@@ -411,8 +425,7 @@ def r3_notify(ctx, rid='C06.R3'):
             got = set()
             for what in ('notify_send', 'notify_recv', 'notify_push'):
                 ns = [b for b, t2 in f.calls_to(STREAM + '::' + what)]
-                reach = f.reachable(f.succ[bi], cut_blocks=ns)
-                if ns and not any(x in reach for x in f.returns()):
+                if _notified(f, bi, ns):
                     got.add(what)
             sets[(name, t['fn'].split('::')[-1])] = (got, f.loc(bi))
     r.floor(len(sets), 4, 'call sites of closing State mutators (recv_reset, handle_error, recv_eof, set_reset)')
@@ -457,8 +470,7 @@ def r3_notify(ctx, rid='C06.R3'):
         ns = [bi for bi, t in pd.calls_to(STREAM + '::notify_recv')]
         ok = bool(pf) and bool(ns)
         for b in pf:
-            reach = pd.reachable(pd.succ[b], cut_blocks=ns)
-            if any(x in reach for x in pd.returns()):
+            if not _notified(pd, b, ns):
                 ok = False
         r.check(ok, 'putback|poll_data', pd.file, 'poll_data: a put-back event is followed by notify_recv (hands over to poll_trailers)')
     pt = r.fn(P + 'recv::Recv::poll_trailers')
@@ -467,8 +479,7 @@ def r3_notify(ctx, rid='C06.R3'):
         ok = bool(pf)
         regs = [bi for bi, si, pl, rv, ln in pt.stmts() if core.place_fields(pl)[-1:] == [(STREAM, 'recv_task')]]
         for b in pf:
-            reach = pt.reachable(pt.succ[b], cut_blocks=regs)
-            if any(x in reach for x in pt.returns()):
+            if not _notified(pt, b, regs):
                 ok = False
         r.check(ok and bool(regs), 'putback|poll_trailers', pt.file, 'poll_trailers: after putting an event back it stores recv_task before returning (0.4.16 missed wake-up)')
 
@@ -569,10 +580,9 @@ def r6_admission(ctx, rid='C06.R6'):
         ns = [bi for bi, t in po.calls_to(STREAM + '::notify_send')]
         ok = bool(inc) and bool(ns)
         for b in inc:
-            reach = po.reachable(po.succ[b], cut_blocks=ns)
-            if any(x in reach for x in po.returns()):
+            if not _notified(po, b, ns):
                 ok = False
-        r.check(ok, 'pop_pending_open|notify_send', po.file, 'admitting a pending-open stream is followed by notify_send')
+        r.check(ok, 'pop_pending_open|notify_send', po.file, 'admitting a pending-open stream is accompanied by notify_send')
     for fname in (STREAM + '::assign_capacity', STREAM + '::send_data'):
         f = r.fn(fname)
         if f:
